@@ -442,22 +442,37 @@ func cmdKuEku(args []string) {
 	n, tpls := 0, kuekuTemplates(c, 3)
 	for _, tpl := range tpls {
 		base, _ := forge.ParseCert(tpl.DER)
+		// every combination is judged in the plan's order and then again in the reverse order (single purposes before and
+		// after the lists that contain them): the set of statuses seen must still have one element
+		type item struct {
+			r    kuekuRecipe
+			cert *x509.Certificate
+			sts  map[int]bool
+		}
+		var items []*item
 		for _, r := range pl.KuEku {
-			der := plantKuEku(base, r)
-			cert, ok, _ := corpus.ParseCert(der)
-			if !ok {
-				continue
+			if cert, ok, _ := corpus.ParseCert(plantKuEku(base, r)); ok {
+				items = append(items, &item{r, cert, map[int]bool{}})
 			}
-			sts := map[int]bool{}
-			for k := 0; k < 12; k++ {
-				res := l.Execute(cert, g.GetConfiguration())
-				sts[int(res.Status)] = true
+		}
+		judge := func(it *item, reps int) {
+			for k := 0; k < reps; k++ {
+				res := l.Execute(it.cert, g.GetConfiguration())
+				it.sts[int(res.Status)] = true
 			}
+		}
+		for _, it := range items {
+			judge(it, 8)
+		}
+		for i := len(items) - 1; i >= 0; i-- {
+			judge(items[i], 4)
+		}
+		for _, it := range items {
 			var sl []int
-			for s := range sts {
+			for s := range it.sts {
 				sl = append(sl, s)
 			}
-			w.Emit(ev.M{"ev": "KuEku", "tpl": tpl.ID, "ku": r.Ku, "ekus": r.Ekus, "st": sl, "nEku": len(cert.ExtKeyUsage), "kuParsed": kuBitsOf(cert)})
+			w.Emit(ev.M{"ev": "KuEku", "tpl": tpl.ID, "ku": it.r.Ku, "ekus": it.r.Ekus, "st": sl, "nEku": len(it.cert.ExtKeyUsage), "kuParsed": kuBitsOf(it.cert)})
 			n++
 		}
 	}
